@@ -82,7 +82,7 @@ func scanInodes(dir string) map[uint64]fileState {
 }
 
 func runC08(c *fw.Case) {
-	if desyncBin() != "" && c.Chance(1, 8, "c08.extract") {
+	if desyncBin() != "" && c.Chance(1, 4, "c08.extract") {
 		runC08Extract(c)
 		return
 	}
